@@ -109,7 +109,7 @@ void chain_from_plan(const Plan &plan, Chain &c)
 
 // ---------------------------------------------------------- artefacts
 bool xz_build_sized(const Bytes &in, const std::vector<size_t> &block_sizes, lzma_filter *filters,
-		lzma_check check, Bytes &out, XzInfo *info, std::string &err)
+		lzma_check check, Bytes &out, XzInfo *info, std::string &err, int spoil_block)
 {
 	lzma_stream_flags sf;
 	memset(&sf, 0, sizeof sf);
@@ -142,6 +142,38 @@ bool xz_build_sized(const Bytes &in, const std::vector<size_t> &block_sizes, lzm
 		size_t opos = 0;
 		lzma_ret r = lzma_block_buffer_encode(&blk, nullptr, in.data() + pos, n, tmp.data(), &opos, tmp.size());
 		if (r != LZMA_OK) { lzma_index_end(idx, nullptr); err = fmt("block_buffer_encode %s", ret_name(r)); return false; }
+		if (spoil_block > 0 && (size_t)spoil_block == bi) {
+			// Re-encode this Block Header with a filter chain that is well formed (known IDs, valid
+			// property sizes, right CRC32) and passes the memory-usage calculation, but which the Block
+			// decoder's initialisation must refuse: a BCJ filter whose start offset is not a multiple of
+			// its alignment, put in front of the real chain.
+			lzma_filter df[LZMA_FILTERS_MAX + 1];
+			lzma_block db; memset(&db, 0, sizeof db);
+			db.check = check; db.filters = df;
+			db.header_size = lzma_block_header_size_decode(tmp[0]);
+			if (lzma_block_header_decode(&db, nullptr, tmp.data()) == LZMA_OK) {
+				int nf = 0; while (df[nf].id != LZMA_VLI_UNKNOWN) ++nf;
+				if (nf < LZMA_FILTERS_MAX) {
+					static lzma_options_bcj bo; memset(&bo, 0, sizeof bo); bo.start_offset = 2;
+					lzma_filter nfl[LZMA_FILTERS_MAX + 1];
+					nfl[0].id = (spoil_block & 1) ? LZMA_FILTER_ARM : LZMA_FILTER_POWERPC; nfl[0].options = &bo;
+					for (int q = 0; q <= nf; ++q) nfl[q + 1] = df[q];
+					uint32_t old_hs = db.header_size;
+					db.filters = nfl;
+					if (lzma_block_header_size(&db) == LZMA_OK) {
+						Bytes nh(db.header_size);
+						if (lzma_block_header_encode(&db, nh.data()) == LZMA_OK) {
+							tmp.erase(tmp.begin(), tmp.begin() + old_hs);
+							tmp.insert(tmp.begin(), nh.begin(), nh.end());
+							opos = opos - old_hs + db.header_size;
+							blk.header_size = db.header_size;
+							if (info) info->spoiled_blocks++;
+						}
+					}
+				}
+				lzma_filters_free(df, nullptr);
+			}
+		}
 		size_t boff = out.size();
 		out.insert(out.end(), tmp.begin(), tmp.begin() + (long)opos);
 		lzma_vli unpadded = lzma_block_unpadded_size(&blk);
@@ -270,7 +302,7 @@ bool build_artefact(const Plan &plan, Bytes &file, Bytes &plain, XzInfo &info, s
 		block_sizes_for(r, in.size(), (size_t)plan.p(p + "block", 0), plan.p(p + "empty_blocks", 0) != 0, bs);
 		lzma_check check = (lzma_check)plan.p(p + "check", LZMA_CHECK_CRC32);
 		if (plan.p(p + "kind", 0) == 0) {
-			if (!xz_build_sized(in, bs, c.f, check, file, &info, err)) return false;
+			if (!xz_build_sized(in, bs, c.f, check, file, &info, err, (int)plan.p(p + "spoil_block", 0))) return false;
 		} else {
 			// the stream encoder cannot make empty Blocks: drop zero sizes
 			std::vector<size_t> bs2;
